@@ -7,6 +7,7 @@ import (
 	"fmt"
 	"io"
 	"sort"
+	"sync"
 	"testing"
 
 	"pgregory.net/rapid"
@@ -131,7 +132,10 @@ func checkCase(c *Case) error {
 	c.fileLen, c.nobj, c.xrefKind = len(data), len(exp), f.XRefKind
 
 	// ---- every truncation offset ----
-	for L := 0; L <= len(data); L++ {
+	// The cuts are independent of each other; they are spread over a few
+	// goroutines and the failure with the smallest offset is reported, so the
+	// outcome does not depend on scheduling.
+	checkCut := func(L int) error {
 		prefix := data[:L]
 		complete := 0
 		for _, e := range exp {
@@ -140,10 +144,9 @@ func checkCase(c *Case) error {
 			}
 		}
 		fi, err := pdf.SequentialScan(bytes.NewReader(prefix), int64(L))
-		c.cuts++
 		label := fmt.Sprintf("prefix of %d/%d bytes (%d complete objects)", L, len(data), complete)
 		if complete == 0 {
-			continue // any outcome is acceptable
+			return nil // any outcome is acceptable
 		}
 		if err != nil {
 			return fmt.Errorf("%s: SequentialScan fails outright: %v", label, err)
@@ -160,6 +163,35 @@ func checkCase(c *Case) error {
 				return err
 			}
 		}
+		return nil
+	}
+	const workers = 4
+	errs := make([]error, workers)
+	errAt := make([]int, workers)
+	var wg sync.WaitGroup
+	for w := 0; w < workers; w++ {
+		wg.Add(1)
+		go func(w int) {
+			defer wg.Done()
+			for L := w; L <= len(data); L += workers {
+				err := vt.Guard(func() error { return checkCut(L) })
+				if err != nil {
+					errs[w], errAt[w] = err, L
+					return
+				}
+			}
+		}(w)
+	}
+	wg.Wait()
+	c.cuts += len(data) + 1
+	best := -1
+	for w := range errs {
+		if errs[w] != nil && (best < 0 || errAt[w] < errAt[best]) {
+			best = w
+		}
+	}
+	if best >= 0 {
+		return errs[best]
 	}
 
 	// ---- single-section xref damage ----
@@ -286,7 +318,7 @@ var prop = &vt.Prop[Case]{
 	Property: property,
 	Kind:     "c20-document",
 	Gen: func(t *rapid.T) Case {
-		c := Case{Prog: wprog.Gen(wprog.Opts{MaxActions: 6, MaxData: vt.Scale(1100, 2500), SmallObjects: true,
+		c := Case{Prog: wprog.Gen(wprog.Opts{MaxActions: 6, MaxData: vt.Scale(1100, 2500), SmallObjects: true, MaxDelta: 100,
 			NoEncryption: true, NoCompressed: true, ForbidHeaders: true}).Draw(t, "prog")}
 		c.Prog.ScrubNames()
 		return c
